@@ -247,8 +247,10 @@ func (u *Universe) makeResolver(def *ast.Definition, fd *ast.FieldDefinition, ft
 			}
 			return []reflect.Value{zero, noErr}
 		case plan.Foreign:
-			if fv, ok := u.Foreign[fd.Type.Name()]; ok && fd.Type.Elem == nil {
-				return []reflect.Value{fv.Convert(retT), noErr}
+			if fv, ok := u.Foreign[fd.Type.Name()]; ok && fd.Type.Elem == nil && fv.Type().AssignableTo(retT) {
+				out := reflect.New(retT).Elem()
+				out.Set(fv)
+				return []reflect.Value{out, noErr}
 			}
 			atomic.AddInt64(&e.Unrepresentable, 1)
 		}
@@ -317,6 +319,14 @@ func (u *Universe) build(e *Exec, goT reflect.Type, t *ast.Type, key string) ref
 		// gqlgen treats a nil slice in a non-null list position as an empty list; plans never ask for it
 		if nilable(goT) {
 			return reflect.Zero(goT)
+		}
+		atomic.AddInt64(&e.Unrepresentable, 1)
+	}
+	if o.Kind == plan.Foreign {
+		if fv, ok := u.Foreign[t.Name()]; ok && t.Elem == nil && fv.Type().AssignableTo(goT) {
+			out := reflect.New(goT).Elem()
+			out.Set(fv)
+			return out
 		}
 		atomic.AddInt64(&e.Unrepresentable, 1)
 	}
